@@ -77,7 +77,7 @@ def casesStep (X : SchemaX) (cx : Cx) (choice : STree) (sibs : List DNode) : Lis
   | some (some old, some _) =>
     -- auto-delete the old case: every data instance of it (each recorded as a deletion of the node itself)
     let r := delSeq X cx true (inSids old.dataSids) [] sibs
-    (r.1, Out.ofEvs r.2)
+    (r.1, Out.ofEvs (r.2.map fun e => { e with src := .cases }))
   | some _ => (sibs, {})
 
 /-! ## `lyd_validate_choice_r` -/
